@@ -58,6 +58,19 @@ def return_shapes(chk):
                            f"fails with TypeError")
 
 
+def built_exception(tree, func):
+    """the one class every `return` of the called helper constructs (helper looked up by its
+    name in the same module: a function or a method), or None"""
+    hname = func.attr if isinstance(func, ast.Attribute) else func.id if isinstance(func, ast.Name) else None
+    defs = [d for d in ast.walk(tree) if isinstance(d, ast.FunctionDef) and d.name == hname]
+    if len(defs) != 1:
+        return None
+    rets = [r for r in ast.walk(defs[0]) if isinstance(r, ast.Return)]
+    kinds = {r.value.func.id if r.value is not None and isinstance(r.value, ast.Call) and isinstance(r.value.func, ast.Name)
+             else None for r in rets}
+    return kinds.pop() if len(kinds) == 1 and None not in kinds else None
+
+
 def raise_sites(chk):
     sites = []
     for rel, tree in scan.iter_modules(chk.repo):
@@ -67,6 +80,11 @@ def raise_sites(chk):
                 e = x.exc
                 name = e.func.id if isinstance(e, ast.Call) and isinstance(e.func, ast.Name) else \
                     (e.id if isinstance(e, ast.Name) else ast.unparse(e))
+                # `raise self.helper(...)` / `raise helper(...)`: the class of what the helper builds
+                if isinstance(e, ast.Call) and name != "CParsingError":
+                    built = built_exception(tree, e.func)
+                    if built is not None:
+                        name = built
                 sites.append((rel, scan.enclosing_function(x, par), name))
     other = sorted({s for s in sites if s[2] != "CParsingError" and not s[0].endswith("lexer/lexer.py")})
     chk.frame("raises.rules_raise_only_CParsingError", not other, {"sites": len(sites), "other": other},
